@@ -438,6 +438,7 @@ type Contract struct {
 	CallSites  map[string][]*Clause // callee name -> extra obligations at each call in this function
 	CallSiteEns  map[string][]*Clause // callee name -> facts assumed after each call in this function (trusted)
 	CallSiteMods map[string][]*Clause // callee name -> locations havocked at each call in this function (trusted)
+	Cancellable []*Clause           // func block: channels one of which every blocking wait of the function also waits on
 	CloseOnly  []string             // type block: channel fields that are never sent on, only closed
 	FieldWrite map[string][]*Clause // type block: two-state obligations on every store to a field (self, was, now)
 	AssumeAt   []*Clause            // trusted facts assumed right after the statement whose source line contains Label
@@ -458,7 +459,7 @@ var clauseKeywords = map[string]bool{
 	"property": true, "mode": true, "requires": true, "ensures": true, "modifies": true, "reads": true,
 	"loop": true, "assert": true, "pure": true, "inline": true, "trusted": true, "unproved": true,
 	"assume": true, "option": true, "expect": true, "def": true, "unfold": true, "macro": true, "guards": true,
-	"invariant": true, "rely": true, "ghost": true, "replay": true, "package": true, "end": true, "ghostfield": true, "let": true, "callsite": true, "closeonly": true, "fieldwrite": true, "lockassume": true, "ghostdef": true, "assumeat": true, "trust-ensures": true,
+	"invariant": true, "rely": true, "ghost": true, "replay": true, "package": true, "end": true, "ghostfield": true, "let": true, "callsite": true, "closeonly": true, "fieldwrite": true, "cancellable": true, "lockassume": true, "ghostdef": true, "assumeat": true, "trust-ensures": true,
 }
 
 func firstWord(s string) (string, string) {
@@ -673,6 +674,14 @@ func ParseContractFile(path string, pkg string) (*ContractFile, error) {
 			}
 			cl.Label = r[1 : j+1]
 			cur.AssumeAt = append(cur.AssumeAt, cl)
+		case "cancellable":
+			// cancellable <chan expr> : every blocking channel wait of the function (select, receive, send) can also be ended by
+			// that channel (several clauses: by one of them)
+			cl, err := mkClause("cancellable", rest, l.line)
+			if err != nil {
+				return nil, err
+			}
+			cur.Cancellable = append(cur.Cancellable, cl)
 		case "fieldwrite":
 			// fieldwrite <field> requires <expr over self, was, now> : obligation at every store to that field
 			fld, r2 := firstWord(rest)
